@@ -121,8 +121,51 @@ def reuse_probe(ctx, n: int) -> None:
         reuse_case(rep, r)
 
 
+def halo_case(rep, r: dict) -> None:
+    """halo particles of a Gaussian bunch — out to and beyond the edge of the default grid (3 sigma) — are pushed away from
+    the bunch centre like everything else, or (outside the grid) not at all; never towards it"""
+    import numpy as np
+    import torch
+    import cheetah
+    rng = np.random.default_rng(r["seed"])
+    N = r["n"]
+    sig = np.array(r["sigma"])
+    P = np.zeros((N, 7))
+    P[:, 6] = 1.0
+    P[:, [0, 2, 4]] = rng.normal(size=(N, 3)) * sig
+    dt = torch.float64
+    b = cheetah.ParticleBeam(torch.tensor(P, dtype=dt), torch.tensor(r["energy"], dtype=dt),
+                             particle_charges=torch.full((N,), r["charge"] / N, dtype=dt), dtype=dt)
+    sc = cheetah.SpaceChargeKick(effect_length=torch.tensor(r["L"], dtype=dt), dtype=dt)
+    out = sc.track(b).particles.detach().numpy()
+    for c, pc, nm in ((0, 1, "x"), (2, 3, "y")):
+        dp = out[:, pc] - P[:, pc]
+        kmax = float(np.abs(dp).max())
+        halo = np.abs(P[:, c]) > 2.2 * sig[c // 2]
+        inward = halo & (dp * np.sign(P[:, c]) < -0.1 * kmax)
+        if inward.any():
+            i = int(np.argmax(inward * np.abs(dp)))
+            rep.fail("falsifier", f"C19|SpaceChargeKick|Gaussian bunch, default grid|halo particle pulled inwards|{nm}",
+                     f"{int(inward.sum())} halo particles beyond 2.2 sigma in {nm} are kicked towards the bunch centre, e.g. the one at "
+                     f"{P[i, c] / sig[c // 2]:.2f} sigma by {dp[i]:.3e} (largest kick of the bunch {kmax:.3e})", r)
+            return
+
+
+def halo_probe(ctx, n: int) -> None:
+    import elements as E
+    rep, rng = ctx.report, ctx.rng
+    for _ in range(n):
+        r = {"kind": "halo", "seed": int(rng.integers(1 << 30)), "n": 20000, "sigma": [float(10.0 ** rng.uniform(-4, -3)) for _ in range(3)],
+             "energy": float(E.pick(rng, 5e6, 2e7, 1e8)), "charge": 1e-9, "L": float(E.pick(rng, 0.1, 0.5))}
+        rep.fals_cases += 1
+        rep.count("probe:halo")
+        rep.case(("halo", r["energy"]), None)
+        halo_case(rep, r)
+
+
 def run(ctx) -> None:
     reuse_probe(ctx, ctx.n(12, 200))
+    halo_probe(ctx, ctx.n(3, 60))
     f32_probe(ctx, ctx.n(8, 120))
     run_sc_correspondence(ctx, "C19", ctx.n(40, 800))
     if F is not None:
@@ -132,6 +175,8 @@ def run(ctx) -> None:
 def corpus_case(ctx, r: dict) -> None:
     if r.get("kind") == "reuse":
         return reuse_case(ctx.report, r)
+    if r.get("kind") == "halo":
+        return halo_case(ctx.report, r)
     if r.get("kind") == "f32_kick":
         return f32_case(ctx.report, r)
     if F is not None and hasattr(F, "corpus_case"):
